@@ -56,7 +56,7 @@ def translate_source():
     except Exception as e:
         # keep the library buildable: an empty translation
         open(out, 'w').write('/-! source-level translation failed on this tree -/\n')
-        return {c: 'untranslatable: translator failed (' + type(e).__name__ + ')' for c in ('Checksum', 'UbxParser', 'NmeaParser', 'UbxFrame')}
+        return {c: 'untranslatable: translator failed (' + type(e).__name__ + ')' for c in ('Checksum', 'UbxParser', 'NmeaParser', 'UbxFrame', 'CfgKeyData')}
 
 
 SRC_THEOREMS = {
@@ -64,6 +64,7 @@ SRC_THEOREMS = {
     'UbxFrame': ['frame_calc', 'frame_to_bytes'],
     'UbxParser': ['ubx_reset', 'ubx_step', 'ubx_process', 'ubx_restart', 'ubx_empty_queue', 'ubx_set_filter', 'ubx_set_filters'],
     'NmeaParser': ['nmea_to_bin', 'nmea_step', 'nmea_process', 'nmea_restart'],
+    'CfgKeyData': ['key_bits', 'key_group', 'key_item', 'key_bytes', 'key_header'],
 }
 
 
